@@ -243,6 +243,38 @@ def fam_closures():
               ("call", V("g"), []))
     yield seq(("decl", "f", ("lambda", [], V("late"))), ("decl", "late", I(3)), ("call", V("f"), []))
     yield seq(("decl", "f", ("lambda", [], V("never"))), ("try", ("call", V("f"), []), "e", I(-1)))
+    # a scope that is still EMPTY when a nested scope (and a closure in it) is created declares a name only afterwards: the
+    # closure must find that later declaration (its chain of scopes is fixed when it is created, not what they hold)
+    L12 = ("list", [I(1), I(2)])
+    for outer_k in (True, False):
+        for inner in ("foryield", "fordo", "iife", "while"):
+            for late in ("decl", "declthenset"):
+                for host in ("lambda0", "whilebody", "forbody", "catch"):
+                    clo = ("lambda", [], ("list", [V("i"), ("try", V("k"), "q", I(-5))]))
+                    if inner == "foryield":
+                        mk = ("decl", "gs", ("for", [("each", "i", L12)], ("yield", clo, None)))
+                    elif inner == "fordo":
+                        mk = seq(("decl", "gs", ("list", [])), ("for", [("each", "i", L12)], ("do", ("opset", "gs", "append", clo))))
+                    elif inner == "iife":
+                        mk = ("decl", "gs", ("list", [("call", ("lambda", [("p", "i")], clo), [I(7)])]))
+                    else:
+                        mk = seq(("decl", "gs", ("list", [])), ("decl", "n", I(0)),
+                                 ("while", ("bin", "<", V("n"), I(2)), seq(("opset", "n", "+", I(1)), ("decl", "i", V("n")), ("opset", "gs", "append", clo))))
+                    latepart = [("decl", "k", I(10))] + ([("set", "k", I(11))] if late == "declthenset" else [])
+                    use = ("for", [("each", "g", V("gs"))], ("yield", ("call", V("g"), []), None))
+                    if inner in ("fordo", "while") and host != "lambda0":
+                        continue      # these declare gs / n first, so the host scope is not empty any more: covered by lambda0 only for contrast
+                    inside = seq(mk, *latepart, use)
+                    if host == "lambda0":
+                        prog = ("call", ("lambda", [], inside), [])
+                    elif host == "whilebody":
+                        prog = seq(("decl", "once", I(0)), ("decl", "res", ("null",)),
+                                   ("while", ("bin", "<", V("once"), I(1)), seq(("set", "res", inside), ("opset", "once", "+", I(1)))), V("res"))
+                    elif host == "forbody":
+                        prog = ("for", [("each", "z", ("list", [I(0)]))], ("yield", inside, None))
+                    else:
+                        prog = ("try", ("throw", I(1)), "_", inside)
+                    yield seq(*([("decl", "k", I(1))] if outer_k else []), ("list", [prog, ("try", V("k"), "q", I(-6))]))
     # recursion through a captured name
     yield seq(("decl", "fact", ("lambda", [("p", "n")], ("if", ("bin", "<", V("n"), I(1)), I(1), ("bin", "*", V("n"), ("call", V("fact"), [("bin", "-", V("n"), I(1))]))))),
               ("call", V("fact"), [I(5)]))
